@@ -1,6 +1,7 @@
 import H3.Lemmas.ReqRecv
 import H3.Lemmas.ReqLift
 import H3.Lemmas.FrameRefSpec
+import H3.Drv.C03
 /-! # C03 — request streams accept exactly the RFC 9114 §4.1 frame sequences
 
 Model: `H3.ReqRecv` (the request layer of `connection.rs`, `server/request.rs`,
@@ -71,6 +72,60 @@ example : observe (documentedFrames .server allOk 20 [.headers [1], .data 4 [[8,
 example : observe (documentedFrames .server allOk 20 [.headers [1], .headers [2]] .open_) =
     { calls := [.head [1], .body [], .bodyEnd, .pending] } := by decide
 example : spec .client [.U] .fin = .any := by decide
+
+/-! non-vacuity with a FAITHFUL header oracle: the correspondence driver's own `hdrFor role`
+    (`lean/H3/Drv/C03.lean`: what the real `qpack::decode_stateless` + `Header::try_from` +
+    `into_request_parts` / `into_response_parts` / `into_fields` make of the five blocks the generator
+    uses).  It accepts the request block only as a server-side head, the response block only as a
+    client-side head, the trailer block only as trailers: NO block is acceptable in both positions, so
+    the old hypothesis (`HdrOk` for every token) fails for every sequence with a HEADERS frame, while
+    the positional one holds for real messages — with trailers. -/
+section Faithful
+open H3.Drv.C03 (hdrFor blkRequest blkResponse blkTrailer blkBadQpack)
+
+example (role : Role) (b : Bytes) : ¬ HdrOk (hdrFor role) (.headers b) := by
+  rintro ⟨h1, h2⟩
+  simp only [hdrFor] at h1 h2
+  by_cases hq : (b == blkBadQpack) = true
+  · simp [hq] at h1
+  · simp only [hq, Bool.false_eq_true, if_false] at h1 h2
+    have ht : b = blkTrailer := by
+      by_cases hb : (b == blkTrailer) = true
+      · simpa using hb
+      · simp [hb] at h2
+    subst ht
+    cases role <;> simp [blkTrailer, blkRequest, blkResponse] at h1
+
+/-- a request with grease, an empty DATA frame, a payload in two pieces, trailers, grease -/
+def toksReq : List Tok :=
+  [.unknown 0x21 [], .headers blkRequest, .data 0 [], .data 3 [[10], [11, 12]], .unknown 0x40 [9],
+   .headers blkTrailer, .unknown 0x21 []]
+def toksResp : List Tok :=
+  [.headers blkResponse, .data 2 [[8, 9]], .headers blkTrailer]
+
+example : ¬ ∀ tok ∈ toksReq, HdrOk (hdrFor .server) tok := fun h => by
+  have := (h (.headers blkRequest) (by simp [toksReq])).2
+  revert this; decide
+example : HdrsOk (hdrFor .server) toksReq ∧ HdrsOk (hdrFor .client) toksResp := by decide
+-- the blocks in the wrong position are NOT acceptable: the hypothesis is really positional
+example : ¬ HdrsOk (hdrFor .server) [.headers blkTrailer, .headers blkRequest] := by decide
+example : ¬ HdrsOk (hdrFor .client) toksReq := by decide
+
+example : observe (documentedFrames .server (hdrFor .server) 20 toksReq .fin) =
+    { calls := [.head blkRequest, .body [10, 11, 12], .bodyEnd, .trailers blkTrailer] } := by decide
+example : (spec .server (toksReq.map kind) .fin).accepts
+    (observe (documentedFrames .server (hdrFor .server) 20 toksReq .fin)) :=
+  C03_server_recv_spec (hdrFor .server) toksReq .fin 20 (by simp [toksReq, TokWF]) (by decide) (by decide)
+example : (spec .client (toksResp.map kind) (.reset 7)).accepts
+    (observe (documentedFrames .client (hdrFor .client) 20 toksResp (.reset 7))) :=
+  C03_client_recv_spec (hdrFor .client) toksResp (.reset 7) 20 (by simp [toksResp, TokWF]) (by decide) (by decide)
+example : spec .client (toksResp.map kind) (.reset 7) =
+    .oneOf [{ calls := [.head blkResponse, .body [8, 9], .bodyEnd, .resetBy 7] }] := by decide
+-- a third HEADERS frame is refused undecoded: nothing is asked of its block
+example : HdrsOk (hdrFor .client) (toksResp ++ [.headers blkBadQpack]) := by decide
+example : (observe (documentedFrames .client (hdrFor .client) 20 (toksResp ++ [.headers blkBadQpack]) .fin)).connError =
+    some 261 := by decide
+end Faithful
 
 /-! ### the clauses of the property, spelled out -/
 
@@ -207,6 +262,19 @@ theorem C03_valid_message_delivered (role : Role) (H : Hdr) (pre mid post : List
 example : observe (documentedFrames .client allOk 30 toks₁ .fin) =
     { calls := [.head [1, 2], .body (payloads [.data 0 [], .data 3 [[10], [11, 12]], .unknown 0x40 [9]]),
                 .bodyEnd, .trailers [7]] } := by decide
+
+-- with the driver's faithful oracle: a request with trailers (the oracle is asked about the request
+-- block as a head and about the trailer block as trailers, nothing else)
+example : observe (documentedFrames .server (H3.Drv.C03.hdrFor .server) 30 toksReq .fin) =
+    { calls := [.head H3.Drv.C03.blkRequest,
+                .body (payloads [.data 0 [], .data 3 [[10], [11, 12]], .unknown 0x40 [9]]), .bodyEnd,
+                .trailers H3.Drv.C03.blkTrailer]
+      connError := none, streamReset := none } :=
+  C03_valid_message_delivered .server (H3.Drv.C03.hdrFor .server) [.unknown 0x21 []]
+    [.data 0 [], .data 3 [[10], [11, 12]], .unknown 0x40 [9]] [.unknown 0x21 []] H3.Drv.C03.blkRequest
+    (some H3.Drv.C03.blkTrailer) 30 (by simp [isU]) (by decide) (by simp [isU]) toksReq rfl
+    (by simp [toksReq, TokWF]) (by decide)
+    (by intro t ht; simp only [Option.some.injEq] at ht; subst ht; decide) (by decide)
 
 /-- the recogniser meets a frame that can only be answered with H3_FRAME_UNEXPECTED -/
 def violates (side : Side) : Phase → List K → Bool
@@ -655,6 +723,25 @@ example : (spec .client (kindsOf (run frameDec (.hdr []) (wire₁.take 9)).2) .o
     (by intro ev hev; simp at hev; rcases hev with rfl | rfl <;> exact ⟨_, rfl⟩)
     (by intro b hb; simp at hb; rcases hb with rfl | rfl <;> simp)
     (by decide +kernel) (by decide +kernel) (by decide +kernel)
+
+/-! the same with the driver's faithful oracle and a request WITH trailers on the wire: HEADERS
+    (the request block), DATA(2), HEADERS (the trailer block), a grease frame — cut in three places -/
+def wireReq : List Nat :=
+  [0x01, 0x0d] ++ H3.Drv.C03.blkRequest ++ [0x00, 0x02, 0xc1, 0xc2] ++ [0x01, 0x06] ++ H3.Drv.C03.blkTrailer ++
+    [0x21, 0x00]
+def cutReq : List H3.FS.Ev := [.chunk (wireReq.take 5), .chunk ((wireReq.drop 5).take 13), .chunk (wireReq.drop 18)]
+
+example : evBytes cutReq = wireReq := by decide +kernel
+example : spec .server (kindsOf (run frameDec (.hdr []) (evBytes cutReq)).2) .fin =
+    .oneOf [{ calls := [.head H3.Drv.C03.blkRequest, .body [0xc1, 0xc2], .bodyEnd, .trailers H3.Drv.C03.blkTrailer] }] := by
+  decide +kernel
+example : (spec .server (kindsOf (run frameDec (.hdr []) (evBytes cutReq)).2) .fin).accepts
+    (observe (documentedChunks .server (H3.Drv.C03.hdrFor .server) (cutReq ++ .fin :: []))) :=
+  C03_chunked_outcome_fin .server (H3.Drv.C03.hdrFor .server) cutReq []
+    (by decide +kernel) (by decide +kernel) (by decide +kernel) (by decide +kernel) (by decide +kernel)
+-- the client's oracle refuses the request block as a head: the hypothesis fails, as it should
+example : ¬ HdrsOkK (H3.Drv.C03.hdrFor .client) .head (kindsOf (run frameDec (.hdr []) (evBytes cutReq)).2) := by
+  decide +kernel
 
 /-- Why the simulation is `FrameSimP` and not `FrameSim`: for a script with a `Pending` before
     more data NO relation containing the initial configuration is a `FrameSim` between the
